@@ -496,6 +496,67 @@ func runSysScenario(c *Ctx, fixed bool, kind string) (term string, desc map[stri
 			c.violation("q-err-cancel-missed", fmt.Sprintf("query %d: context cancelled before Query, Err = %s", q.idx, f.err.kind), info)
 		}
 		c.dist("sys_err", f.err.kind)
+		// C23 directly on Stats()
+		{
+			type bk struct {
+				p   string
+				off int
+			}
+			seen := map[bk]bs.BlockStats{}
+			var rowsSum, bytesSum int64
+			nSkipped := 0
+			for _, b := range f.stats.BlockStats {
+				k := bk{string(b.FilePointer), b.BlockOffset}
+				if _, dup := seen[k]; dup {
+					c.violation("q-stats-dup", fmt.Sprintf("query %d: block %s@%d listed twice in BlockStats", q.idx, k.p, k.off), info)
+				}
+				seen[k] = b
+				if b.BloomFilterSkipped {
+					nSkipped++
+					if b.RowsProcessed != 0 || b.BytesProcessed != 0 {
+						c.violation("q-stats-skipped", fmt.Sprintf("query %d: skipped block %s@%d reports %d rows / %d bytes", q.idx, k.p, k.off, b.RowsProcessed, b.BytesProcessed), info)
+					}
+				}
+				rowsSum += b.RowsProcessed
+				bytesSum += b.BytesProcessed
+			}
+			if f.stats.BlocksSkipped != nSkipped || f.stats.BlocksProcessed != len(f.stats.BlockStats)-nSkipped || f.stats.RowsScanned != rowsSum || f.stats.BytesScanned != bytesSum {
+				c.violation("q-stats-totals", fmt.Sprintf("query %d: Stats totals are not the per-block sums", q.idx), info)
+			}
+			rowBlock := map[int64]bk{}
+			for fi := range w.files {
+				sf := &w.files[fi]
+				blocks := w.queryBlocks(sf, q.plan.sq)
+				n := 0
+				for _, b := range blocks {
+					if _, ok := seen[bk{sf.pointer, b.meta.RowDataOffset}]; ok {
+						n++
+					}
+					for _, r := range b.rows {
+						rowBlock[r.id] = bk{sf.pointer, b.meta.RowDataOffset}
+					}
+				}
+				if !q.cancelled.Load() && !asked && n != 0 && n != len(blocks) {
+					c.violation("q-stats-partial-file", fmt.Sprintf("query %d was not terminated early but Stats lists %d of the %d prefilter-surviving blocks of file %s", q.idx, n, len(blocks), sf.pointer), info)
+				}
+			}
+			for _, id := range q.returned {
+				if b, ok := seen[rowBlock[id]]; !ok || b.BloomFilterSkipped {
+					c.violation("q-stats-returned", fmt.Sprintf("query %d: row %d was returned but its block is not listed as processed", q.idx, id), info)
+					break
+				}
+			}
+			if !q.cancelled.Load() && !asked && f.err.kind == "nil" {
+				for k, b := range seen {
+					if !b.BloomFilterSkipped && b.RowsProcessed != b.TotalRows {
+						c.violation("q-stats-rows", fmt.Sprintf("query %d completed cleanly but block %s@%d has RowsProcessed %d of %d", q.idx, k.p, k.off, b.RowsProcessed, b.TotalRows), info)
+					}
+				}
+				if f.stats.RowsMatched != int64(len(q.returned)) {
+					c.violation("q-rows-matched", fmt.Sprintf("query %d completed cleanly: RowsMatched %d, rows returned %d", q.idx, f.stats.RowsMatched, len(q.returned)), info)
+				}
+			}
+		}
 		if (q.plan.mode == "drain" || q.plan.mode == "slow") && injected.Load() == 0 && sc.iterAt < 0 && !q.cancelled.Load() {
 			// undisturbed: exactly the matching rows of the blocks the prefilter keeps, each once
 			want := map[int64]int{}
